@@ -566,67 +566,11 @@ __CPROVER_ensures(IMPLIES(n > __CPROVER_old(EP_BB(driver)->size) - __CPROVER_old
     && BB_CELL_SAME(EP_BB(driver), g_j)))
 ;
 
-/* source driver of a chunk list (tier B: at most EP_CHUNKS_MAX chunks, the
- * goto loop is unwound).  Chunks without unread octets are skipped; the octets
- * come from the first chunk that has some (index `active` afterwards), at most
- * n and only from that chunk; -ENODATA when every chunk from `active` on is
- * empty.  The ghost index g_j stands for an arbitrary chunk. */
-#ifndef EP_CHUNKS_MAX
-#define EP_CHUNKS_MAX 4
-#endif
-#if EP_CHUNKS_MAX > 4
-#error "the per-chunk precondition of read_from_chunks is written out for at most 4 chunks"
-#endif
-#define EP_BC(driver) ((ByteChunks *)(driver))
-#define EP_CH(driver, i) (EP_BC(driver)->chunk + EP_CL((i), EP_BC(driver)->chunks))
-#define EP_CH_OK(driver, data, i) IMPLIES((i) < EP_BC(driver)->chunks, \
-    BB_MEM_OK(EP_CH(driver, i)) && EP_CH(driver, i)->size <= (size_t)SSIZE_MAX \
-    && !__CPROVER_same_object(EP_CH(driver, i)->data, (data)) \
-    && !__CPROVER_same_object(EP_CH(driver, i)->data, (driver)) \
-    && !__CPROVER_same_object(EP_CH(driver, i)->data, EP_BC(driver)->chunk))
-#define EP_CH_EMPTY_O(driver, i) \
-    (__CPROVER_old(EP_CH(driver, i)->used) == __CPROVER_old(EP_CH(driver, i)->offset))
-#define EP_CH_REST_O(driver, i) \
-    (__CPROVER_old(EP_CH(driver, i)->used) - __CPROVER_old(EP_CH(driver, i)->offset))
-#define EP_CH_SAME(driver, i) (EP_CH(driver, i)->data == __CPROVER_old(EP_CH(driver, i)->data) \
-    && EP_CH(driver, i)->size == __CPROVER_old(EP_CH(driver, i)->size) \
-    && EP_CH(driver, i)->used == __CPROVER_old(EP_CH(driver, i)->used))
-
-static ssize_t read_from_chunks(void *driver, void *data, size_t n)
-__CPROVER_requires(__CPROVER_rw_ok(EP_BC(driver), sizeof(ByteChunks)))
-__CPROVER_requires(EP_BC(driver)->chunks >= 1 && EP_BC(driver)->chunks <= EP_CHUNKS_MAX
-    && EP_BC(driver)->active <= EP_BC(driver)->chunks)
-__CPROVER_requires(__CPROVER_rw_ok(EP_BC(driver)->chunk, EP_BC(driver)->chunks * sizeof(ByteBuffer))
-    && !__CPROVER_same_object(EP_BC(driver)->chunk, driver)
-    && !__CPROVER_same_object(EP_BC(driver)->chunk, data))
-__CPROVER_requires(EP_CH_OK(driver, data, 0) && EP_CH_OK(driver, data, 1)
-    && EP_CH_OK(driver, data, 2) && EP_CH_OK(driver, data, 3))
-__CPROVER_requires(n >= 1 && n <= (size_t)SSIZE_MAX && __CPROVER_w_ok(data, n) && !__CPROVER_same_object(driver, data))
-__CPROVER_assigns(EP_BC(driver)->active; __CPROVER_object_upto(data, n);
-    __CPROVER_object_upto(EP_BC(driver)->chunk, EP_BC(driver)->chunks * sizeof(ByteBuffer)))
-__CPROVER_ensures(EP_BC(driver)->chunks == __CPROVER_old(EP_BC(driver)->chunks)
-    && EP_BC(driver)->chunk == __CPROVER_old(EP_BC(driver)->chunk)
-    && EP_BC(driver)->active >= __CPROVER_old(EP_BC(driver)->active)
-    && EP_BC(driver)->active <= EP_BC(driver)->chunks)
-/* every chunk keeps its storage and its content; only the offset of the chunk
- * that was read from moves */
-__CPROVER_ensures(IMPLIES(g_j < EP_BC(driver)->chunks, EP_CH_SAME(driver, g_j)
-    && IMPLIES(!(__CPROVER_return_value >= 0 && g_j == EP_BC(driver)->active),
-         EP_CH(driver, g_j)->offset == __CPROVER_old(EP_CH(driver, g_j)->offset))))
-/* the chunks that were skipped had no unread octets: nothing is lost */
-__CPROVER_ensures(IMPLIES(g_j >= __CPROVER_old(EP_BC(driver)->active) && g_j < EP_BC(driver)->active,
-    EP_CH_EMPTY_O(driver, g_j)))
-__CPROVER_ensures(IMPLIES(__CPROVER_return_value < 0,
-    __CPROVER_return_value == -ENODATA && EP_BC(driver)->active == EP_BC(driver)->chunks))
-__CPROVER_ensures(IMPLIES(__CPROVER_return_value >= 0, EP_BC(driver)->active < EP_BC(driver)->chunks))
-__CPROVER_ensures(IMPLIES(__CPROVER_return_value >= 0 && g_j == EP_BC(driver)->active,
-    !EP_CH_EMPTY_O(driver, g_j)
-    && (size_t)__CPROVER_return_value == BB_MIN(n, EP_CH_REST_O(driver, g_j))
-    && EP_CH(driver, g_j)->offset == __CPROVER_old(EP_CH(driver, g_j)->offset) + (size_t)__CPROVER_return_value
-    && IMPLIES(g_k < (size_t)__CPROVER_return_value,
-         ((unsigned char *)data)[g_k]
-           == EP_CH(driver, g_j)->data[BB_CL(__CPROVER_old(EP_CH(driver, g_j)->offset) + g_k, EP_CH(driver, g_j)->size)])))
-;
+/* read_from_chunks (a backward-goto loop over the chunk list) carries no
+ * contract: CBMC 6.11 cannot attach a loop contract to a goto loop, and
+ * unwinding it under state merging reads the loop-local `rc` stale.  Its
+ * obligations are asserted by the plain harness h_read_from_chunks, explored
+ * path by path (tier B, at most EP_CHUNKS_MAX chunks). */
 
 void source_from_buffer(Source *instance, ByteBuffer *buffer)
 __CPROVER_requires(__CPROVER_rw_ok(instance, sizeof(Source)))
